@@ -82,7 +82,8 @@ def gen_entries(rng, n, cli_safe):
 
 
 def one_case(arg):
-    seed, idx, drvbin, sizerbin, scratch = arg
+    seed, idx, drvbin, sizerbin, scratch = arg[:5]
+    shimdir = arg[5] if len(arg) > 5 else None
     rng = random.Random("C15|%d|%d" % (seed, idx))
     d = os.path.join(scratch, "k%d" % idx)
     os.makedirs(d)
@@ -243,6 +244,25 @@ def one_case(arg):
             if js is None or js.get("reference_groups") != tallies:
                 out["viol"].append((_sig("cli/tallies-differ", truth),
                                     {"got": (js or {}).get("reference_groups"), "want": tallies, "truth": _show(truth)}))
+            # `git config --list` dying after some complete entries: the run may fail, but a run that succeeds must still
+            # report the full configuration's tallies
+            if shimdir and idx % 2 == 0:
+                bounds = []
+                acc = 0
+                for k, v in truth:
+                    acc += len(k) + (1 + len(v) if v is not None else 0) + 1
+                    bounds.append(acc)
+                for cut in rng.sample(bounds[:-1], min(3, len(bounds) - 1)) if len(bounds) > 1 else []:
+                    pdir = os.path.join(d, "cfgcut%d" % cut)
+                    plan = R.make_plan(pdir, [{"sig": "config --list", "ord": rng.choice([0, 0, 1]), "mode": "fault",
+                                               "term": rng.choice(["exit:128", "sig:KILL"]), "after_bytes": cut}])
+                    rc_ = R.sizer(sizerbin, work, ["--json", "--no-progress"], env=env, shimdir=shimdir, plan=plan, tmpdir=d)
+                    out["evals"] += 1
+                    if rc_.rc == 0:
+                        jc, _ = P.parse_json(rc_.out)
+                        if jc is None or jc.get("reference_groups") != tallies:
+                            out["viol"].append((_sig("cli/tallies-differ-after-config-listing-was-cut", truth),
+                                                {"cut": cut, "got": (jc or {}).get("reference_groups"), "want": tallies}))
             # display names (only the table shows them): last `name` entry git reports for the group, the default name
             # (last component of the symbol) when that entry is empty or has no value
             names_truth = {}
@@ -321,7 +341,8 @@ def run(chk, b, tier):
     drv = b.apidrv()
     sz = b.sizer()
     scratch = b.scratchdir()
-    jobs = [(R.SEED, i, drv, sz, scratch) for i in range(n)]
+    shimdir = b.shimdir()
+    jobs = [(R.SEED, i, drv, sz, scratch, shimdir) for i in range(n)]
     res = R.pmap(one_case, jobs, chunksize=4, chk=chk)
     for r in res:
         chk.count(r["evals"])
